@@ -74,3 +74,69 @@ def acl_from_rulebook(rnd, rules, keys=("1", "2"), gen="g", p=0.7):
         kids = [] if r["glob"] else acl_from_rulebook(rnd, r["kids"], keys, gen, p)
         out.append(mk(pat, kids, r["glob"], rnd.choice([None, None, True, False]), gen))
     return out
+
+
+def instance(rnd, pat, words):
+    """a row instantiating a pattern (set tokens are not used by the ACL generators)"""
+    row = []
+    for t in pat:
+        if t["t"] == "lit":
+            row.append(t["w"])
+        elif t["t"] == "star":
+            row.append(rnd.choice(words))
+        elif t["t"] == "tilde":
+            row += [rnd.choice(words) for _ in range(rnd.randint(1, 2))]
+    return row
+
+
+def overlap_acl(rnd, words, prefix, gen="g"):
+    """ACL level on which ONE row is matched by several rules of different generality (literal / `*` / `~`), one of them possibly
+    %global, or by a rule and by the written-out negation of another; returns (rules, a row they all match)"""
+    row = [rnd.choice(words) for _ in range(rnd.randint(2, 3))]
+    shapes = [[lit(w) for w in row],
+              [lit(row[0])] + [{"t": "star"}] * (len(row) - 1),
+              [{"t": "star"}] + [lit(w) for w in row[1:]],
+              [lit(row[0]), {"t": "tilde"}],
+              [{"t": "star"}] * len(row)]
+    rnd.shuffle(shapes)
+    n = rnd.randint(2, 4)
+    rules = []
+    gl = rnd.randrange(n) if rnd.random() < 0.6 else -1
+    for k, pat in enumerate(shapes[:n]):
+        if k == gl:
+            rules.append(mk(pat, [], True, rnd.choice([None, True, False]), gen))
+        else:
+            rules.append(mk(pat, random_acl(rnd, words, prefix, 2, gen) if rnd.random() < 0.8 else [], False, rnd.choice([None, None, True, False]), gen))
+    if rnd.random() < 0.4:
+        # a protected rule and, further down, the explicit negated line of the same words (two generators' ACLs put together)
+        base = [lit(w) for w in row]
+        rules.insert(rnd.randrange(len(rules) + 1), mk(base, [], False, True, gen))
+        rules.append(mk([lit(prefix)] + base, [], False, rnd.choice([None, False]), gen))
+        if rnd.random() < 0.7:
+            row = [prefix] + row
+    rnd.shuffle(rules) if rnd.random() < 0.5 else None
+    return rules, row
+
+
+def tree_for(rnd, rules, words, prefix, depth=3, must=None):
+    """a tree whose rows mostly instantiate the rules of their level (plus strangers), `must` is placed at the top level"""
+    t, seen = [], set()
+    rows = [must] if must else []
+    for r in rules:
+        if rnd.random() < 0.7:
+            rows.append(instance(rnd, r["pat"], words))
+        if rnd.random() < 0.1:
+            rows.append([prefix] + instance(rnd, r["pat"], words))
+    if rnd.random() < 0.3:
+        rows.append([rnd.choice(words) for _ in range(rnd.randint(1, 3))])
+    rnd.shuffle(rows)
+    for row in rows:
+        if not row or tuple(row) in seen:
+            continue
+        seen.add(tuple(row))
+        kids = []
+        if depth > 1:
+            below = [k for r in rules for k in r["kids"]] + [r for r in rules if r["glob"]]
+            kids = tree_for(rnd, below, words, prefix, depth - 1) if below or rnd.random() < 0.3 else []
+        t.append({"row": row, "kids": kids})
+    return t
